@@ -1,2 +1,135 @@
-(* Props/C12.v -- in progress *)
+(* Props/C12.v -- property C12 (v3 part): the inbound in-flight limiter inflight::InFlightServiceImpl as
+   driven by io.rs.  Statements only; the model is Model/Limiter.v.
+
+   Vocabulary.  [run mc ms ops]: the limiter InFlightServiceImpl::new(mc, ms, ..) after the operations
+   [ops] (Ready = the dispatcher polls readiness, Call = a frame is handed over and its call future
+   polled at once, Submit = handed over to a spawned task, Start = first poll of that task,
+   Complete k = the k-th running handler finishes).
+   [legal mc ms ops]: what the repaired io.rs (commit d435312) guarantees -- a frame is handed over only
+   right after a poll that answered Ready, one frame per answer, and readiness is polled again only
+   when every spawned call has had its first poll.  [reading_rule] is the same without the last
+   clause (the tree before d435312).
+   [wf_stream ops]: what the v3 codec and `SizedRequest for Decoded` guarantee -- after a streamed
+   PUBLISH (KPubStream) come its payload chunks and nothing else up to the final one, chunks occur
+   only there and have size() = 0.
+   Every reachable state is the state after a legal sequence ([C12_legal_prefix_closed]), so
+   "for all ops, legal ops -> run ops = Ok s -> P s" is "P holds in every reachable state". *)
 From MV Require Import Base.Prelude Base.Res Model.Limiter Proofs.LimiterProofs.
+
+Theorem C12_legal_prefix_closed : forall (mc ms : N) (a b : list op) (s1 : lim),
+  legal mc ms (a ++ b) = true -> run mc ms a = Ok s1 -> legal mc ms a = true.
+Proof. exact legal_prefix. Qed.
+Print Assumptions C12_legal_prefix_closed.
+
+(* legal runs stay inside the modelled domain: no first poll of a call ever meets a pending readiness check *)
+Theorem C12_in_domain : forall (mc ms : N) (ops : list op) (e : N),
+  legal mc ms ops = true -> run mc ms ops <> Err e.
+Proof. exact in_domain. Qed.
+Print Assumptions C12_in_domain.
+
+(* max_cap <> 0: at every reachable state at most max_cap running calls are not payload chunks, hence at
+   most max_cap publish handlers execute at once; payload chunks of the streamed publish bypass the
+   limit and are the only excess of the counter: cur_cap = (non-chunk calls) + (chunk calls). *)
+Theorem C12_overlap_bounded : forall (mc ms : N) (ops : list op) (s : lim),
+  mc <> 0 -> legal mc ms ops = true -> wf_stream ops = true -> run mc ms ops = Ok s ->
+  count_kind nonchunk (running s) <= mc /\ count_kind publish_kind (running s) <= mc /\
+  cur_cap s = count_kind nonchunk (running s) + count_kind chunk_kind (running s).
+Proof. exact overlap_bounded. Qed.
+Print Assumptions C12_overlap_bounded.
+
+(* a packet that is not a payload chunk is handed over (polled at once or spawned) only when the
+   counter is available: fewer than max_cap calls running and at most max_size bytes in flight *)
+Theorem C12_admission : forall (mc ms : N) (pre : list op) (o : op) (k : kind) (size : N) (s0 : lim),
+  frame_of o = Some (k, size) ->
+  legal mc ms (pre ++ [o]) = true -> wf_stream (pre ++ [o]) = true ->
+  chunk_kind k = false -> run mc ms pre = Ok s0 ->
+  (mc <> 0 -> cur_cap s0 < mc) /\ (ms <> 0 -> cur_size s0 <= ms).
+Proof. exact admission. Qed.
+Print Assumptions C12_admission.
+
+(* max_size <> 0: hence the bytes in flight never exceed max_size by more than the last packet *)
+Theorem C12_bytes_bounded : forall (mc ms : N) (ops : list op) (s : lim),
+  ms <> 0 -> legal mc ms ops = true -> wf_stream ops = true -> run mc ms ops = Ok s ->
+  cur_size s <= ms + last_size ops.
+Proof. exact bytes_bounded. Qed.
+Print Assumptions C12_bytes_bounded.
+
+(* while a payload is streamed (flag set) the next poll answers Ready whatever the counters say; a
+   non-final chunk keeps the flag, the final chunk clears it *)
+Theorem C12_chunks_bypass : forall (mc ms : N) (ops : list op) (s : lim),
+  legal mc ms ops = true -> run mc ms ops = Ok s -> publish_flag s = true ->
+  may_call (step_ready s) = true /\
+  (forall size s', step s (Call KChunk size) = Ok s' -> publish_flag s' = true) /\
+  (forall size s', step s (Call KChunkFinal size) = Ok s' -> publish_flag s' = false).
+Proof. exact chunks_bypass. Qed.
+Print Assumptions C12_chunks_bypass.
+
+Theorem C12_flag_after_call : forall (s : lim) (k : kind) (size : N) (s' : lim),
+  step s (Call k size) = Ok s' -> publish_flag s' = is_publish k || (publish_flag s && is_chunk k).
+Proof. exact flag_after_call. Qed.
+Print Assumptions C12_flag_after_call.
+
+(* never wedges: in every reachable state in which the dispatcher is paused (its last poll answered
+   Pending) and the counter is available again, the dispatcher's waker has been woken *)
+Theorem C12_no_lost_wake : forall (mc ms : N) (ops : list op) (s : lim),
+  legal mc ms ops = true -> run mc ms ops = Ok s ->
+  paused s = true -> is_available s = true -> woken s = true.
+Proof. exact no_lost_wake. Qed.
+Print Assumptions C12_no_lost_wake.
+
+(* the same over histories: a poll answered Pending, then handlers finish in any order *)
+Theorem C12_no_lost_wake_seq : forall (mc ms : N) (pre : list op) (cs : list nat) (s0 s : lim),
+  legal mc ms (pre ++ Ready :: map Complete cs) = true ->
+  run mc ms pre = Ok s0 -> may_call (step_ready s0) = false ->
+  run mc ms (pre ++ Ready :: map Complete cs) = Ok s ->
+  is_available s = true -> woken s = true.
+Proof. exact no_lost_wake_seq. Qed.
+Print Assumptions C12_no_lost_wake_seq.
+
+(* and the woken dispatcher's poll answers Ready in any state whose counter is available: reading resumes *)
+Theorem C12_resume : forall (s : lim), is_available s = true -> may_call (step_ready s) = true.
+Proof. exact resume. Qed.
+Print Assumptions C12_resume.
+
+(* when all handlers have finished the next poll answers Ready (after any operation sequence at all) *)
+Theorem C12_progress : forall (mc ms : N) (ops : list op) (s : lim),
+  run mc ms ops = Ok s -> running s = [] -> may_call (step_ready s) = true.
+Proof. exact progress. Qed.
+Print Assumptions C12_progress.
+
+(* no operation sequence at all (legal or not) of at most 65535 operations with u32 sizes panics:
+   `num - 1` and `cur_size - size` in dec never underflow; the u16 counter can overflow only with
+   65536 calls running at once *)
+Theorem C12_no_panic : forall (mc ms : N) (ops : list op) (site : N),
+  N.of_nat (length ops) <= U16MAX -> forallb op_size_ok ops = true -> run mc ms ops <> Panic site.
+Proof. exact no_panic. Qed.
+Print Assumptions C12_no_panic.
+
+(* Why the last clause of [legal] matters (finding, fixed by /repo commit d435312): under the bare
+   reading rule -- all that io.rs guaranteed before -- spawned calls are counted only at their first
+   poll, so frames that arrive together are all admitted: 3 publish handlers with max_cap = 2,
+   24 bytes in flight with max_size = 10 and packets of 8. *)
+Theorem C12_overlap_refuted_deferred_pre_fix :
+  reading_rule 2 0 (deferred_ops 5) = true /\ wf_stream (deferred_ops 5) = true /\
+  legal 2 0 (deferred_ops 5) = false /\
+  exists s, run 2 0 (deferred_ops 5) = Ok s /\ count_kind publish_kind (running s) = 3 /\ cur_cap s = 3.
+Proof. exact overlap_refuted_deferred. Qed.
+Print Assumptions C12_overlap_refuted_deferred_pre_fix.
+
+Theorem C12_bytes_refuted_deferred_pre_fix :
+  reading_rule 0 10 (deferred_ops 8) = true /\ wf_stream (deferred_ops 8) = true /\
+  legal 0 10 (deferred_ops 8) = false /\
+  exists s, run 0 10 (deferred_ops 8) = Ok s /\ cur_size s = 24 /\ last_size (deferred_ops 8) = 8.
+Proof. exact bytes_refuted_deferred. Qed.
+Print Assumptions C12_bytes_refuted_deferred_pre_fix.
+
+(* non-vacuity: a legal run in codec order with max_cap = 1 in which a payload is streamed past the
+   limit (chunks admitted while one publish runs), the dispatcher is then paused, is woken by the
+   completion that frees the slot, and its next poll answers Ready; a spawned call is part of it *)
+Example C12_nonvacuous :
+  let ops := [Ready; Call KPubStream 7; Ready; Call KChunk 0; Ready; Submit KChunkFinal 0; Start 0;
+              Ready; Complete 1; Complete 1; Complete 0] in
+  legal 1 10 ops = true /\ wf_stream ops = true /\
+  exists s, run 1 10 ops = Ok s /\ paused s = true /\ is_available s = true /\ woken s = true /\
+            may_call (step_ready s) = true.
+Proof. split; [vm_compute; reflexivity|]. split; [vm_compute; reflexivity|]. eexists. vm_compute. repeat split. Qed.
